@@ -42,13 +42,14 @@ static void xt_push(TickitTerm *tt, const char *s)
   tickit_term_input_push_bytes(tt, s, strlen(s));
 }
 
-/* replies to the probes of start(): mode 69 (slrm: 1 = supported), 25 / 12 with the DECRPM
+/* replies to the probes of start(): mode 69 (slrm = the DECRPM value of the reply: 0 not recognised, 1 set, 2 reset,
+ * 3 permanently set, 4 permanently reset), 25 / 12 with the DECRPM
  * values given (0 = no reply), DECSCUSR report (shape < 0 = no reply), SGR report choosing
  * the sub-parameter separator; RGB through the private control */
 static void xt_probe(TickitTerm *tt, int slrm, int rpm25, int rpm12, int decscusr, int colon, int rgb)
 {
   char buf[64];
-  snprintf(buf, sizeof buf, "\e[?69;%d$y", slrm ? 1 : 0); xt_push(tt, buf);
+  snprintf(buf, sizeof buf, "\e[?69;%d$y", slrm); xt_push(tt, buf);
   if(rpm25) { snprintf(buf, sizeof buf, "\e[?25;%d$y", rpm25); xt_push(tt, buf); }
   if(rpm12) { snprintf(buf, sizeof buf, "\e[?12;%d$y", rpm12); xt_push(tt, buf); }
   if(decscusr >= 0) { snprintf(buf, sizeof buf, "\eP1$r%d q\e\\", decscusr); xt_push(tt, buf); }
